@@ -203,9 +203,11 @@ def compare_state(sm, snapshot):
 def make(cfg, outdir, **kw):
     from tempest import Sampler
     like = ll_blob if cfg.get("blobs") else ll
+    if "random_state" in cfg:
+        kw = dict(kw, random_state=cfg["random_state"])
     return Sampler(pt, like, n_dim=2, n_particles=12, clustering=cfg.get("clustering", False),
                    sample=cfg.get("sample", "tpcn"), resample=cfg.get("resample", "mult"),
-                   blobs_dtype=float if cfg.get("blobs") else None, pool=(cfg["pool"] if isinstance(cfg.get("pool"), int) and not isinstance(cfg.get("pool"), bool) else PoolLike()) if cfg.get("pool") else None,
+                   blobs_dtype=float if cfg.get("blobs") is True else None, pool=(cfg["pool"] if isinstance(cfg.get("pool"), int) and not isinstance(cfg.get("pool"), bool) else PoolLike()) if cfg.get("pool") else None,
                    output_dir=str(outdir), output_label="ck", **({"cluster_every": cfg["cluster_every"]} if "cluster_every" in cfg else {}), **kw)
 
 
@@ -214,7 +216,9 @@ def roundtrip_and_resume(run, tier, rng, work):
     # pool=2 is the integer form: the library creates real worker processes itself
     # resume_all: resume from EVERY checkpoint (on and off the refit cadence, warm-up ones included), not only a middle one
     cfgs = [dict(), dict(pool=True), dict(blobs=True, sample="rwm"), dict(clustering=True, resample="syst"), dict(pool=2),
-            dict(clustering=True, cluster_every=3, sample="rwm", resume_all=True)]
+            dict(clustering=True, cluster_every=3, sample="rwm", resume_all=True),
+            # blobs whose dtype is inferred, and a seed that is a numpy integer: both must survive save / load / resume from every checkpoint
+            dict(blobs="inferred", sample="rwm", resume_all=True), dict(random_state=np.int64(7), resume_all=True)]
     if tier != "quick":
         cfgs += [dict(pool=True, blobs=True), dict(clustering=True, pool=True, sample="rwm"), dict(resample="syst", sample="rwm")]
     for ci, cfg in enumerate(cfgs):
@@ -277,6 +281,20 @@ def roundtrip_and_resume(run, tier, rng, work):
                 if len(got) != len(lst) or any(not same_value(a, b) for a, b in zip(got, lst)):
                     run.fail("resume-prefix-changed", f"history prefix of '{key}' is not bit-identical to the checkpoint", **w2)
                     break
+            # the batches added after the resume: coherent records, and not bit-identical copies of stored batches (a replayed random stream)
+            nb = len(snapshot["_history"]["u"])
+            new_u = [np.asarray(b) for b in s3.state._history["u"][nb:]]
+            old_u = [np.asarray(b) for b in s3.state._history["u"][:nb]]
+            dup = [(nb + i + 1, j + 1) for i, a_ in enumerate(new_u) for j, b_ in enumerate(old_u) if a_.shape == b_.shape and np.array_equal(a_, b_)]
+            if dup:
+                run.fail("resume-replays-stored-batches", f"resuming from checkpoint {k}: new iterations repeat stored batches bit for bit (new, stored): {dup[:3]}", **w2)
+            if cfg.get("blobs"):
+                for kk in range(nb, len(s3.state._history["x"])):
+                    xb, bb = np.asarray(s3.state._history["x"][kk]), np.asarray(s3.state._history["blobs"][kk]).ravel()
+                    if len(bb) != len(xb) or np.any(bb != xb[:, 0] * 2.0):
+                        run.fail("resume-record-incoherent", f"resuming from checkpoint {k}: in iteration {kk + 1} (added after the resume) "
+                                 f"{int(np.sum(bb != xb[:, 0] * 2.0)) if len(bb) == len(xb) else -1} stored blobs are not the blobs of the particles in their rows", **w2)
+                        break
             calls = [int(c) for c in s3.state.get_history("calls")]
             betas = [float(b) for b in s3.state.get_history("beta")]
             if any(b2 < b1 for b1, b2 in zip(betas, betas[1:])) or any(c2 < c1 for c1, c2 in zip(calls, calls[1:])):
